@@ -41,7 +41,7 @@ Inductive pplanner :=
  | PPSelectSeries (labels : pplanner) (sels : list selector) (stype sunit : string) (avg : bool) (step : Z)
  | PPMergeProfiles (fp : pplanner) (sels : list selector)
  | PPAllTimeSeries                                                     (* AllTimeSeriesSelectPlanner *)
- | PPTimeSeries (fp : pplanner) (sels : list selector)                 (* TimeSeriesSelectPlanner *)
+ | PPTimeSeries (fp : pplanner) (sels : list selector) (fp_alias : string)   (* TimeSeriesSelectPlanner; FpAlias "" = "fp" *)
  | PPDistinct (main : pplanner)                                        (* TimeSeriesDistinctPlanner *)
  | PPFilterLabels (main : pplanner) (labels : list string)
  | PPProfileSize (main : pplanner).
@@ -105,7 +105,9 @@ Fixpoint pprocess (p : pplanner) (c : prctx) {struct p} : res presult :=
                          | Some rx, Some qs => match ps_rest rx with None => Some (ps_sel rx :: qs) | Some _ => None end
                          | _, _ => None end
              end) mains with
-    | Some (q :: qs) => Some {| ps_sel := q; ps_rest := Some qs; ps_unions := [] |}
+    (* unionAll.GetWith (fix c94f1fe): the WITHs of every member, the first member's first; nothing else reads the WITH list of
+       the embedded first select (under an alias it is printed with STRING_OPT_SKIP_WITH) *)
+    | Some (q :: qs) => Some {| ps_sel := set_withs (s_withs q ++ flat_map (fun m => s_withs m) qs) q; ps_rest := Some qs; ps_unions := [] |}
     | _ => None                                  (* "no planners provided for UNION ALL operator" / a member failed *)
     end
   | PPLabelNames fp =>
@@ -183,15 +185,16 @@ Fixpoint pprocess (p : pplanner) (c : prctx) {struct p} : res presult :=
   | PPAllTimeSeries =>
     Some (mk (and_where (date_window c)
               (set_joins [array_join] (set_from (SimpleCol (pt_series_dist c) "p") (set_cols ts_cols (set_distinct true empty_select))))) [])
-  | PPTimeSeries fp sels =>
+  | PPTimeSeries fp sels fp_alias =>
     bindr (pprocess fp c) (fun f =>
     let g := fst (get_matchers sels) in
+    let a := if String.eqb fp_alias "" then "fp" else fp_alias in
     Some (mk (and_where_if g
-              (and_where ([In (Id "p.fingerprint") [WRef "fp" (ps_sel f)]] ++ date_window c)
+              (and_where ([In (Id "p.fingerprint") [WRef a (ps_sel f)]] ++ date_window c)
                (set_joins [array_join]
                 (set_from (SimpleCol (pt_series_dist c) "p")
-                 (set_cols ts_cols (set_distinct true (with_ [("fp", ps_sel f)] empty_select)))))))
-             (under "fp" f)))
+                 (set_cols ts_cols (set_distinct true (with_ [(a, ps_sel f)] empty_select)))))))
+             (under a f)))
   | PPDistinct main =>
     bindr (pprocess main c) (fun m =>
     Some (mk (set_from (WRef "pre_distinct" (ps_sel m))
@@ -242,9 +245,12 @@ Definition plan_merge_profiles (sels : list selector) (t : type_id) : pplanner :
 (* without any selector the function returns the AllTimeSeriesSelectPlanner at once: label_names is not applied *)
 Definition plan_series (scripts : list (list selector)) (label_names : list string) : pplanner :=
   if Nat.eqb (List.length (List.concat scripts)) 0 then PPAllTimeSeries else
-  let base := match map (fun s => PPTimeSeries (PPSelector s) s) scripts with
-              | [one] => one
-              | many => PPDistinct (PPUnionAll many)
+  (* several matchers: the members of the UNION ALL get the fingerprint aliases fp_0, fp_1, ... (fix c94f1fe; before it every
+     member was `fp` and all of them read the first matcher's fingerprints) *)
+  let base := match scripts with
+              | [one] => PPTimeSeries (PPSelector one) one "fp"
+              | many => PPDistinct (PPUnionAll (map (fun is => PPTimeSeries (PPSelector (snd is)) (snd is) ("fp_" ++ string_of_N (fst is)))
+                                                    (combine (map N.of_nat (seq 0 (List.length many))) many)))
               end in
   match label_names with [] => base | _ => PPFilterLabels base label_names end.
 Definition plan_analyze (sels : list selector) : pplanner := PPProfileSize (PPMergeProfiles (PPSelector sels) sels).
